@@ -250,15 +250,9 @@ def compact (w : World) : World :=
 
 /-- apply one label (after any silent labels it needs) -/
 def doLabel (s : St) (l : Label) (raw : String) : IO St := do
-  -- silent labels inserted on demand: empty iterations of the inline polling loop before a give-up
+  -- silent labels inserted on demand: the two waits of wait_until_idle
   let mut w := s.w
   match l with
-  | .awaitEnd i c =>
-    if !(w.ev c).signal then
-      let mut n := 0
-      while (w.inst i).iters < w.cfg.maxPoll && n < w.cfg.maxPoll && guard w (.pollYield i) do
-        w := apply w (.pollYield i)
-        n := n + 1
   | .wiRecheck x | .wiEnd x =>
     -- the two waits of wait_until_idle return silently
     if guard w (.wiJoined x) then w := apply w (.wiJoined x)
@@ -305,6 +299,16 @@ partial def loop (h : IO.FS.Stream) (s : St) : IO Unit := do
       let cfg : Config := { hardLimit := a.toNat!, queueMax := b.toNat!, maxPoll := c.toNat!, recursionLimit := d.toNat! }
       let w0 := s.w
       loop h { s with w := { w0 with cfg := cfg } }
+    | ["pollYield", i, n] =>
+      -- `n` consecutive empty passes of instance i's inline polling loop: all but the last applied directly
+      let l := Label.pollYield i.toNat!
+      let mut w := s.w
+      let mut k := 1
+      while k < n.toNat! && guard w l do
+        w := apply w l
+        k := k + 1
+      let s' ← doLabel { s with w := w, labels := s.labels + (k - 1) } l raw
+      loop h s'
     | ["rest"] =>
       if isRest s.w then
         printVios (if s.diverged then s.sc ++ "~" else s.sc) s.line (s.m.rest s.w)
@@ -403,8 +407,9 @@ partial def loop (h : IO.FS.Stream) (s : St) : IO Unit := do
           [⟨"C09", "wrongParent", [], s!"event {e} dispatched by {pp}: its parent is {real}, the dispatching handler's event gives {mdl}"⟩]
         loop h { s with diverged := true, w := s.w.modEv e.toNat! fun E => { E with parent := real } }
       else loop h s
-    | ["oChildCount", pp, e, n] =>
+    | "oChildCount" :: pp :: e :: n :: rest =>
       -- C09: the event occurs exactly as often among the children of the dispatching handler's own result as the model says
+      -- (after a refused dispatch too: C14, a rejected dispatch leaves no trace)
       match parseProc pp with
       | .inst i =>
         let I := s.w.inst i
@@ -414,7 +419,10 @@ partial def loop (h : IO.FS.Stream) (s : St) : IO Unit := do
         if mdl != n.toNat! then
           IO.println s!"OBS {s.sc} {s.line} event {e} among children of instance {i}'s result model={mdl} real={n}"
           printVios (s.sc ++ "~") s.line
-            [⟨"C09", "childCount", [], s!"event {e} dispatched by instance {i}: occurs {n} times among the children of that handler's result, expected {mdl}"⟩]
+            ([⟨"C09", "childCount", [], s!"event {e} dispatched by instance {i}: occurs {n} times among the children of that handler's result, expected {mdl}"⟩] ++
+             (if rest == ["rejected"] then
+                [⟨"C14", "rejectedLeftTrace", [], s!"event {e}: its refused dispatch by instance {i} changed that handler's list of children ({n} occurrences, expected {mdl})"⟩]
+              else []))
           loop h { s with diverged := true }
         else loop h s
       | _ => loop h s
@@ -521,7 +529,8 @@ partial def loop (h : IO.FS.Stream) (s : St) : IO Unit := do
           | ["oEvS", e, _, sg, _] =>
             let E := s.w.ev e.toNat!
             if sg == "1" && !treeDone s.w e.toNat! then
-              let sigs : List String := if E.path.length > 1 || f4Sig s.w e.toNat! then ["F4"] else []
+              let sigs : List String := (if E.path.length > 1 || f4Sig s.w e.toNat! then ["F4"] else []) ++
+                (if redoneSig s.w s.m.redone e.toNat! then ["redispatch-done"] else [])
               printVios (if s.diverged || !diffs.isEmpty then s.sc ++ "~" else s.sc) s.line
                 [⟨"C08", "signalledBeforeTreeDone", sigs, s!"event {e} is signalled complete while its tree is not done (a handler result not terminal or a descendant incomplete)"⟩,
                  ⟨"C03", "signalledBeforeTreeDone", sigs, s!"event {e} is signalled complete while its tree is not done (a handler result not terminal or a descendant incomplete)"⟩]
@@ -535,11 +544,19 @@ partial def loop (h : IO.FS.Stream) (s : St) : IO Unit := do
                 [⟨"C15", "counterBelowInHand", [], s!"bus {b}: the queue's unfinished counter is {n} while {need} events are queued or in hand: join() can be released while an event of the bus is still being processed"⟩]
             else pure ()
           -- C07: the observed event_path lists no bus twice
-          | ["oEv", e, _, _, _, path, _] =>
+          | ["oEv", e, _, _, _, path, n] =>
             let pth := natList path
             if pth.eraseDups.length != pth.length then
               printVios (if s.diverged || !diffs.isEmpty then s.sc ++ "~" else s.sc) s.line
                 [⟨"C07", "pathDup", [], s!"event {e}: event_path {path} lists a bus twice"⟩]
+            else pure ()
+            -- C07 / C08: the results of all buses' handlers accumulate on the event: the real event carries no fewer results
+            -- than handlers have recorded an outcome for it
+            let recorded := ((s.w.ev e.toNat!).results.filter fun r => r.status != .pending).length
+            if n.toNat! < recorded then
+              printVios (s.sc ++ "~") s.line
+                [⟨"C07", "resultsLost", [], s!"event {e}: {recorded} handler outcomes were recorded on it, the real event carries {n} results"⟩,
+                 ⟨"C08", "resultsLost", [], s!"event {e}: {recorded} handler outcomes were recorded on it, the real event carries {n} results"⟩]
             else pure ()
           -- C08: a result of an event that was observed complete differs, on the real event, from what it was then
           | ["oRes", e, idx, _, _, st, err, _] =>
